@@ -193,8 +193,11 @@ def k_content(ctx, width, content_hex):
                     ctx.fail("count.rejection", "valid_content_not_honoured", name, case, observed=repr(res), expected=strict)
             elif ok:
                 # only acceptable when the first line denotes that very value in range (e.g. non-ASCII digits)
+                # a count is a string of decimal digits (surrounding white space tolerated); signs, underscores, floats, hex
+                # and anything else int() might swallow are unreadable content
                 try:
-                    den = int(first.decode())
+                    txt = first.decode().strip()
+                    den = int(txt) if txt.isdigit() else None
                 except Exception:
                     den = None
                 if den is None or res != den or not 0 <= res < (1 << width):
@@ -226,7 +229,46 @@ def k_missing(ctx, when):
         shutil.rmtree(d, ignore_errors=True)
 
 
-KINDS = {"mem": k_mem, "file": k_file, "process": k_process, "content": k_content, "missing": k_missing}
+def k_rewidth(ctx, provider, seed):
+    """The width is changed through the max_bit_width setter of the provider interface while counting (only to widths that
+    still hold the current count): from then on the sequence wraps at the new width."""
+    sc, PSC, SF = _imp()
+    r = random.Random(f"rewidth/{seed}")
+    case = {"k": "rewidth", "provider": provider, "seed": seed}
+    ctx.case(f"rewidth/{provider}", (provider, seed), sample=case)
+    d = tempfile.mkdtemp(prefix="spv-c19w-") if provider == "file" else None
+    try:
+        width = r.randrange(1, 7)
+        if provider == "file":
+            path = Path(d) / "w.txt"
+            p = sc.FileSeqCountProvider(width, path)
+        else:
+            p = sc.SeqCountProvider(width)
+        want = 0
+        changes = 0
+        for i in range(r.randrange(20, 160)):
+            if r.random() < 0.12:
+                fits = [w for w in range(1, 9) if want <= (1 << w) - 1 and w != width]
+                if fits:
+                    new = r.choice(fits)
+                    ctx.table("width_changes", "widened" if new > width else "narrowed")
+                    p.max_bit_width = new
+                    width = new
+                    changes += 1
+                    if provider == "file" and r.random() < 0.3:
+                        p = sc.FileSeqCountProvider(width, path)      # restart with the new width on the same file
+            ok, got = attempt(next, p)
+            ctx.ev("count.after_width_change")
+            if not ok or got != want or not 0 <= got < (1 << width) or p.max_bit_width != width:
+                return ctx.fail("count.after_width_change", "value_differs_from_model" if ok else "raised", f"{provider}/" + ("at_wrap" if want == 0 and i else "counting"),
+                                dict(case, call=i), observed=repr(got), expected=want, width=width, width_changes=changes)
+            want = seq_next(want, width)
+    finally:
+        if d:
+            shutil.rmtree(d, ignore_errors=True)
+
+
+KINDS = {"rewidth": k_rewidth, "mem": k_mem, "file": k_file, "process": k_process, "content": k_content, "missing": k_missing}
 
 
 def run(ctx):
@@ -260,6 +302,16 @@ def run(ctx):
         if ctx.mine(i):
             k_file(ctx, w, 120, "every", ctx.seed + w, start_at=start)
             k_file(ctx, w, 120, "never", ctx.seed + w + 1, start_at=start)
+    # very wide counters (file provider; e.g. the 56-bit USLP frame count): exact integer arithmetic at the wrap
+    for w in (33, 40, 48, 52, 53, 54, 55, 56, 62, 63, 64):
+        i += 1
+        if ctx.mine(i):
+            k_file(ctx, w, 130, "every", ctx.seed + w, start_at=(1 << w) - 61)
+            k_file(ctx, w, 130, "never", ctx.seed + w + 1, start_at=(1 << w) - 61)
+            for c in (str(1 << w), str((1 << w) + 1), str((1 << w) - 1)):
+                k_content(ctx, w, (c + "\n").encode().hex())
+    for j in range(ctx.n(120, 6000)):
+        k_rewidth(ctx, "mem" if j & 1 else "file", ctx.seed * 1_000_003 + ctx.shard[0] * 100_003 + j)
     for w in (9, 10, 11, 12, 13, 15):
         i += 1
         if ctx.mine(i):
@@ -272,7 +324,7 @@ def run(ctx):
     if ctx.shard[0] == 0:
         for w in (3, 14):
             for c in (b"", b"\n", b"abc\n", b"-1\n", b"1.5\n", b" 5\n", b"0x10\n", str(1 << w).encode() + b"\n", str((1 << w) - 1).encode() + b"\n", b"1" + b"0" * 30 + b"\n",
-                      "٣\n".encode(), "²\n".encode(), b"\xff\xfe\n", b"5\n7\n", b"5", b"0\n383\n", b"7 \n", b"7\r\n", b"\n5\n", b"+3\n", b"1_0\n", b"00\n", b"007\n"):
+                      "٣\n".encode(), "²\n".encode(), b"\xff\xfe\n", b"5\n7\n", b"5", b"0\n383\n", b"7 \n", b"7\r\n", b"\n5\n", b"+3\n", b"1_0\n", b"00\n", b"007\n", b"-0\n", b"1__0\n", b"_1\n", b"1_\n", b"\t4\n", b"1e2\n", b"0b1\n", b"0o7\n", b"1 2\n", b"3\x0c\n"):
                 k_content(ctx, w, c.hex())
         for when in (0, 1, 5):
             k_missing(ctx, when)
@@ -283,5 +335,5 @@ def conclude(ctx):
     for w in range(1, 9):
         ctx.require(ctx.tables.get("file_cells", {}).get(f"file/width={w}/restart=every", 0) > 0, f"file width {w} with restarts before every call missing")
     ctx.require(ctx.tables.get("file_opens_observed", {}).get("count", 0) > 0, "audit hook saw no open() of the counter file")
-    for m in ("count.sequence", "count.range", "count.acceptable", "count.file_state", "count.across_processes", "count.rejection", "count.missing_file"):
+    for m in ("count.sequence", "count.range", "count.acceptable", "count.file_state", "count.across_processes", "count.rejection", "count.missing_file", "count.after_width_change"):
         ctx.require(ctx.monitors.get(m, {}).get("evaluations", 0) > 0, f"monitor {m} never evaluated")
